@@ -480,6 +480,12 @@ class Crate:
         for b in self.all_bodies:
             if b.kind == "closure" and b.parent:
                 self._children[b.parent].append(b)
+        # functions that are not part of the reference tree are transparent: inlined into their callers (mirlib/inline.py)
+        self.inlining = None
+        known = known_functions(self.package)
+        if known is not None and not os.environ.get("VCHECK_NO_INLINE"):
+            from mirlib import inline
+            self.inlining = inline.apply(self, known, Body)
 
     def body(self, path):
         return self.bodies.get(path)
@@ -532,6 +538,19 @@ class Crate:
         if len(r) != 1:
             raise LookupError("expected exactly one adt matching %r, found %d" % (suffix, len(r)))
         return r[0]
+
+
+_KNOWN = None
+
+
+def known_functions(package):
+    """frozen list of the functions of the reference tree (mirlib/known_fns.json, written by tools/gen_known_fns.py); None if absent"""
+    global _KNOWN
+    if _KNOWN is None:
+        p = os.path.join(os.path.dirname(os.path.abspath(__file__)), "known_fns.json")
+        _KNOWN = json.load(open(p)) if os.path.exists(p) else {}
+    v = _KNOWN.get(package)
+    return set(v) if v is not None else None
 
 
 def load(facts_dir, package):
